@@ -90,55 +90,107 @@ Definition f_lt (x y : N) : bool :=
        | false, true => false
        end.
 
+(* ---------- errors the apply handlers return before calling the store ---------- *)
+(* fixed error variables; their texts are in Consts.apply_err_texts (hook node.VerifApplyErrTexts) *)
+Inductive fixed_err := FEInvalidArgs | FEInvalidTTL | FEInvalidCommand | FEInvalidRange | FEScoreNotValidFloat | FEUnknownData.
+Definition fixed_name (f : fixed_err) : gname :=
+  match f with
+  | FEInvalidArgs => "ErrInvalidArgs" | FEInvalidTTL => "ErrInvalidTTL" | FEInvalidCommand => "ErrInvalidCommand"
+  | FEInvalidRange => "errInvalidRange" | FEScoreNotValidFloat => "errScoreNotValidFloat" | FEUnknownData => "errUnknownData"
+  end.
+Inductive aerr :=
+| EParseInt (a : bytes)       (* error of strconv.ParseInt(a, 10, 64): "strconv.ParseInt: parsing " ++ Quote(a) ++ ": ..." *)
+| EAtoi (a : bytes)           (* error of strconv.Atoi(a):             "strconv.Atoi: parsing " ++ Quote(a) ++ ": ..." *)
+| EParseFloat (a : bytes)     (* error of strconv.ParseFloat(a, 64):   "strconv.ParseFloat: parsing " ++ Quote(a) ++ ": ..." *)
+| EFixed (f : fixed_err)
+| EArity (name : bytes).      (* "ERR wrong number of arguments for '" ++ name ++ "' command" (node/multi.go localPlsetCommand) *)
+
+Fixpoint assoc_gname (k : gname) (l : list (gname * gname)) : option gname :=
+  match l with
+  | [] => None
+  | (a, b) :: r => if gname_eqb a k then Some b else assoc_gname k r
+  end.
+(* the part of the message that precedes every client supplied byte (for a fixed error: the whole message) *)
+Definition err_prefix (e : aerr) : bytes :=
+  match e with
+  | EParseInt _ => B "strconv.ParseInt: parsing "
+  | EAtoi _ => B "strconv.Atoi: parsing "
+  | EParseFloat _ => B "strconv.ParseFloat: parsing "
+  | EFixed f => match assoc_gname (fixed_name f) apply_err_texts with Some t => B t | None => [] end
+  | EArity _ => B "ERR wrong number of arguments for '"
+  end.
+
+(* node/state_machine.go isUnrecoveryError(err): the apply loop panics when it says true.
+   The predicate and its literal are read from the source (Consts.unrecovery_matcher/_pattern). *)
+Fixpoint prefix_of (p s : bytes) : bool :=
+  match p, s with
+  | [], _ => true
+  | x :: p', y :: s' => (x =? y) && prefix_of p' s'
+  | _ :: _, [] => false
+  end.
+Fixpoint contains (p s : bytes) : bool :=
+  prefix_of p s || match s with [] => false | _ :: s' => contains p s' end.
+Definition is_unrecovery (msg : bytes) : bool :=
+  if gname_eqb unrecovery_matcher "prefix" then prefix_of (B unrecovery_pattern) msg
+  else if gname_eqb unrecovery_matcher "contains" then contains (B unrecovery_pattern) msg
+  else if gname_eqb unrecovery_matcher "containsfold" then contains (lower (B unrecovery_pattern)) (lower msg)
+  else true.
+
 Section WithFloat.
 (* strconv.ParseFloat(string(b), 64): Some bits when err == nil, None otherwise *)
 Variable pf : bytes -> option N.
 
 (* ---------- option parsers of node/keys.go and node/zset.go ---------- *)
-(* getExNxXXArgs: true = no error *)
-Fixpoint exnxxx (opts : list bytes) (nxorxx : bool) : bool :=
+(* getExNxXXArgs: None = no error *)
+Fixpoint exnxxx (opts : list bytes) (nxorxx : bool) : option aerr :=
   match opts with
-  | [] => true
+  | [] => None
   | o :: rest =>
     let op := lower o in
     if bytes_eqb op (B "nx") || bytes_eqb op (B "xx") then
-      if nxorxx then false else exnxxx rest true
+      if nxorxx then Some (EFixed FEInvalidArgs) else exnxxx rest true
     else if bytes_eqb op (B "ex") then
       match rest with
-      | [] => false
+      | [] => Some (EFixed FEInvalidArgs)
       | secs :: rest' =>
         match parse_int secs with
-        | None => false
-        | Some d => if (d <=? 0)%Z then false else exnxxx rest' nxorxx
+        | None => Some (EFixed FEInvalidArgs)
+        | Some d => if (d <=? 0)%Z then Some (EFixed FEInvalidTTL) else exnxxx rest' nxorxx
         end
       end
-    else false
+    else Some (EFixed FEInvalidArgs)
   end.
-Definition exnxxx_ok (opts : list bytes) : bool := exnxxx opts false.
+Definition exnxxx_err (opts : list bytes) : option aerr := exnxxx opts false.
+Definition exnxxx_ok (opts : list bytes) : bool := match exnxxx_err opts with None => true | Some _ => false end.
 
-(* getExSecs *)
-Definition exsecs_ok (ex secs : bytes) : bool :=
+(* getExSecs: None = no error *)
+Definition exsecs_err (ex secs : bytes) : option aerr :=
   if bytes_eqb (lower ex) (B "ex") then
     match parse_int secs with
-    | Some n => negb (n <=? 0)%Z
-    | None => false
+    | Some n => if (n <=? 0)%Z then Some (EFixed FEInvalidTTL) else None
+    | None => Some (EParseInt secs)
     end
-  else false.
+  else Some (EFixed FEInvalidArgs).
+Definition exsecs_ok (ex secs : bytes) : bool := match exsecs_err ex secs with None => true | Some _ => false end.
 
-(* getScoreRange: true = no error *)
-Definition score_bound_ok (inf_word : gname) (b : bytes) : bool :=
-  if bytes_eqb (lower b) (B inf_word) then true
+(* getScoreRange: None = no error *)
+Definition score_bound_err (inf_word : gname) (b : bytes) : option aerr :=
+  if bytes_eqb (lower b) (B inf_word) then None
   else
     let d := match b with 40 :: r => r | _ => b end in
     match pf d with
-    | None => false
-    | Some x => negb (f_isinf x)
+    | None => Some (EParseFloat d)
+    | Some x => if f_isinf x then Some (EFixed FEInvalidRange) else None
     end.
-Definition score_range_ok (l r : bytes) : bool :=
+Definition score_range_err (l r : bytes) : option aerr :=
   match l, r with
-  | [], _ | _, [] => false
-  | _, _ => if score_bound_ok "-inf" l then score_bound_ok "+inf" r else false
+  | [], _ | _, [] => Some (EFixed FEInvalidRange)
+  | _, _ => match score_bound_err "-inf" l with
+            | Some e => Some e
+            | None => score_bound_err "+inf" r
+            end
   end.
+Definition score_range_ok (l r : bytes) : bool := match score_range_err l r with None => true | Some _ => false end.
 
 (* getLexRange *)
 Definition lex_bound_ok (whole : gname) (b : bytes) : bool :=
@@ -154,14 +206,14 @@ Definition lex_range_ok (l r : bytes) : bool :=
   end.
 
 (* getScorePairs(args): parses args[0], args[2], ... and indexes args[i+1] *)
-Inductive pairs_res := PairsOk | PairsErr | PairsPanic.
+Inductive pairs_res := PairsOk | PairsErr (e : aerr) | PairsPanic.
 Fixpoint score_pairs (args : list bytes) : pairs_res :=
   match args with
   | [] => PairsOk
   | s :: rest =>
     match pf s with
-    | None => PairsErr
-    | Some x => if f_isnan x then PairsErr     (* "a NaN score can not be ordered": rejected *)
+    | None => PairsErr (EParseFloat s)
+    | Some x => if f_isnan x then PairsErr (EFixed FEScoreNotValidFloat)   (* "a NaN score can not be ordered": rejected *)
                 else match rest with
                      | [] => PairsPanic
                      | _ :: rest' => score_pairs rest'
@@ -543,7 +595,7 @@ Definition handle (ns : bytes) (args : list bytes) (f : fact) : verdict :=
 (* outcome of the registered internal handler as far as the argument shape decides it *)
 Inductive ares :=
 | APanic                      (* Go run-time panic: index / slice bounds out of range *)
-| AErr                        (* the handler returns an error before calling the store *)
+| AErr (e : aerr)             (* the handler returns this error before calling the store *)
 | AReach.                     (* the store function is called with well-formed arguments *)
 
 Definition need (args : list bytes) (i : nat) (k : ares) : ares :=
@@ -551,24 +603,28 @@ Definition need (args : list bytes) (i : nat) (k : ares) : ares :=
 (* cmd.Args[i:] *)
 Definition need_slice (args : list bytes) (i : nat) (k : ares) : ares :=
   if Nat.leb i (alen args) then k else APanic.
-Definition parse_i (args : list bytes) (i : nat) (k : ares) : ares :=
-  need args i (match parse_int (arg args i) with Some _ => k | None => AErr end).
+Definition parse_i (args : list bytes) (i : nat) (k : ares) : ares :=      (* strconv.ParseInt *)
+  need args i (match parse_int (arg args i) with Some _ => k | None => AErr (EParseInt (arg args i)) end).
+Definition parse_a (args : list bytes) (i : nat) (k : ares) : ares :=      (* strconv.Atoi *)
+  need args i (match parse_int (arg args i) with Some _ => k | None => AErr (EAtoi (arg args i)) end).
 Definition parse_f (args : list bytes) (i : nat) (k : ares) : ares :=
-  need args i (match pf (arg args i) with Some _ => k | None => AErr end).
+  need args i (match pf (arg args i) with Some _ => k | None => AErr (EParseFloat (arg args i)) end).
 
 Definition localKeyOnly (args : list bytes) : ares := need args 1 AReach.
 Definition localKV (args : list bytes) : ares := need args 1 (need args 2 AReach).
 Definition localK3 (args : list bytes) : ares := need args 1 (need args 2 (need args 3 AReach)).
 Definition localKRest (args : list bytes) : ares := need args 1 (need_slice args 2 AReach).   (* Args[1], Args[2:]... *)
 Definition localRest1 (args : list bytes) : ares := need_slice args 1 AReach.                 (* Args[1:]... *)
-Definition localExpire (args : list bytes) : ares := parse_i args 2 (need args 1 AReach).
+Definition localExpire (args : list bytes) : ares := parse_a args 2 (need args 1 AReach).
 
 Definition localSetCommand (args : list bytes) : ares :=
-  if Nat.ltb 3 (alen args) then (if exnxxx_ok (skipn 3 args) then AReach else AErr)
+  if Nat.ltb 3 (alen args) then (match exnxxx_err (skipn 3 args) with None => AReach | Some e => AErr e end)
   else localKV args.
 Definition localSetIfEQCommand (args : list bytes) : ares :=
-  if Nat.eqb (alen args) 6 && negb (exsecs_ok (arg args 4) (arg args 5)) then AErr
-  else localK3 args.
+  match (if Nat.eqb (alen args) 6 then exsecs_err (arg args 4) (arg args 5) else None) with
+  | Some e => AErr e
+  | None => localK3 args
+  end.
 Definition localMSetCommand (args : list bytes) : ares :=
   need_slice args 1 (if Nat.even (alen args - 1) then AReach else APanic).
 Definition localIncrByCommand (args : list bytes) : ares := parse_i args 2 (need args 1 AReach).
@@ -577,7 +633,7 @@ Definition localBitSetV2Command (args : list bytes) : ares :=
 Definition localSetRangeCommand (args : list bytes) : ares :=
   parse_i args 2 (need args 1 (need args 3 AReach)).
 Definition localHMsetCommand (args : list bytes) : ares :=
-  need_slice args 2 (if Nat.even (alen args - 2) then need args 1 AReach else AErr).
+  need_slice args 2 (if Nat.even (alen args - 2) then need args 1 AReach else AErr (EFixed FEInvalidArgs)).
 Definition localHIncrbyCommand (args : list bytes) : ares :=
   parse_i args 3 (need args 1 (need args 2 AReach)).
 Definition localJSONDelCommand (args : list bytes) : ares := need args 1 AReach.
@@ -590,27 +646,27 @@ Definition localLtrimCommand (args : list bytes) : ares :=
 Definition localZaddCommand (args : list bytes) : ares :=
   need_slice args 2 (match score_pairs (skipn 2 args) with
                      | PairsPanic => APanic
-                     | PairsErr => AErr
+                     | PairsErr e => AErr e
                      | PairsOk => need args 1 AReach
                      end).
 Definition localZincrbyCommand (args : list bytes) : ares :=
   parse_f args 2 (need args 1 (need args 3 AReach)).
 Definition localZremCommand (args : list bytes) : ares :=
-  if Nat.ltb (alen args) 3 then AErr else AReach.
+  if Nat.ltb (alen args) 3 then AErr (EFixed FEInvalidArgs) else AReach.
 Definition localZremrangebyrankCommand (args : list bytes) : ares :=
   parse_i args 2 (parse_i args 3 (need args 1 AReach)).
 Definition localZremrangebyscoreCommand (args : list bytes) : ares :=
-  need args 2 (need args 3 (if score_range_ok (arg args 2) (arg args 3) then need args 1 AReach else AErr)).
+  need args 2 (need args 3 (match score_range_err (arg args 2) (arg args 3) with None => need args 1 AReach | Some e => AErr e end)).
 Definition localZremrangebylexCommand (args : list bytes) : ares :=
-  need args 2 (need args 3 (if lex_range_ok (arg args 2) (arg args 3) then need args 1 AReach else AErr)).
+  need args 2 (need args 3 (if lex_range_ok (arg args 2) (arg args 3) then need args 1 AReach else AErr (EFixed FEInvalidRange))).
 Definition localZclearCommand (args : list bytes) : ares :=
-  if negb (Nat.eqb (alen args) 2) then AErr else AReach.
+  if negb (Nat.eqb (alen args) 2) then AErr (EFixed FEInvalidArgs) else AReach.
 Definition localSpop (args : list bytes) : ares :=
   if Nat.eqb (alen args) 3 then need args 2 (need args 1 AReach) else need args 1 AReach.
 Definition localSetexCommand (args : list bytes) : ares :=
-  parse_i args 2 (need args 1 (need args 3 AReach)).
+  parse_a args 2 (need args 1 (need args 3 AReach)).
 Definition localPlsetCommand (args : list bytes) : ares :=
-  if Nat.ltb (alen args) 3 || negb (Nat.even (alen args - 1)) then AErr else AReach.
+  if Nat.ltb (alen args) 3 || negb (Nat.even (alen args - 1)) then AErr (EArity (arg args 0)) else AReach.
 
 (* internal handler method -> shape function. Unknown methods panic (fail-safe). *)
 Definition apply_handler (m : gname) (args : list bytes) : ares :=
@@ -660,7 +716,7 @@ Definition apply_shape (v2 : bool) (args : list bytes) : ares :=
     let k' := if v2 then match cut_ns k with Some x => x | None => [] end else k in
     let args' := name0 :: k' :: rest in
     match find_reg KInternal (lower name0) reg_table with
-    | None => AErr
+    | None => AErr (EFixed FEInvalidCommand)
     | Some r => if gname_eqb (r_wrap r) "direct" then apply_handler (param (r_params r) 0) args' else APanic
     end
   | _ => APanic
